@@ -224,6 +224,20 @@ def _norm_block(stmts: List[ast.stmt]) -> List[ast.stmt]:
             if not s.orelse and rest and _leaves(s.body):
                 s.orelse = _norm_block(rest)
                 stmts = stmts[:i + 1]
+            while not s.orelse and len(s.body) == 1 and isinstance(s.body[0], ast.If) and not s.body[0].orelse:
+                # `if a: if b: X` (no else on either) IS `if a and b: X` (b is evaluated only when a holds, in both spellings)
+                inner = s.body[0]
+                parts = (list(s.test.values) if isinstance(s.test, ast.BoolOp) and isinstance(s.test.op, ast.And) else [s.test]) + \
+                        (list(inner.test.values) if isinstance(inner.test, ast.BoolOp) and isinstance(inner.test.op, ast.And) else [inner.test])
+                s.test = ast.copy_location(ast.BoolOp(op=ast.And(), values=parts), s.test)
+                s.body = inner.body
+            while len(s.orelse) == 1 and isinstance(s.orelse[0], ast.If) and [ast.dump(x) for x in s.body] == [ast.dump(x) for x in s.orelse[0].body]:
+                # `if a: X  elif b: X  else: Y` IS `if a or b: X  else: Y` (b is evaluated only when a fails, in both spellings)
+                inner = s.orelse[0]
+                parts = (list(s.test.values) if isinstance(s.test, ast.BoolOp) and isinstance(s.test.op, ast.Or) else [s.test]) + \
+                        (list(inner.test.values) if isinstance(inner.test, ast.BoolOp) and isinstance(inner.test.op, ast.Or) else [inner.test])
+                s.test = ast.copy_location(ast.BoolOp(op=ast.Or(), values=parts), s.test)
+                s.orelse = inner.orelse
             if s.orelse and isinstance(s.test, ast.UnaryOp) and isinstance(s.test.op, ast.Not):
                 s.test, s.body, s.orelse = s.test.operand, s.orelse, s.body
             elif s.orelse and isinstance(s.test, ast.Compare) and len(s.test.ops) == 1 and isinstance(s.test.ops[0], (ast.NotEq, ast.IsNot, ast.NotIn)):
@@ -681,14 +695,28 @@ class Resolver:
                 stored[n.id] = stored.get(n.id, 0) + 1
             elif isinstance(n, (ast.FunctionDef, ast.ClassDef)) and n is not fn:
                 stored[n.name] = stored.get(n.name, 0) + 1
-        for s in fn.body:
-            if isinstance(s, ast.FunctionDef) and not s.decorator_list and stored.get(s.name, 0) == 1 \
-                    and not any(isinstance(x, (ast.Nonlocal, ast.Global, ast.Yield, ast.YieldFrom)) for x in ast.walk(s)):
-                # the closure must not be handed out (stored, passed, returned): only called
-                uses = [x for x in ast.walk(fn) if isinstance(x, ast.Name) and x.id == s.name and isinstance(x.ctx, ast.Load)]
-                called = [x.func for x in ast.walk(fn) if isinstance(x, ast.Call) and isinstance(x.func, ast.Name) and x.func.id == s.name]
-                if uses and len(uses) == len(called):
-                    self.local_defs[s.name] = s
+        def blocks(node):
+            for fld in ("body", "orelse", "finalbody"):
+                blk = getattr(node, fld, None)
+                if isinstance(blk, list) and blk and isinstance(blk[0], ast.stmt):
+                    yield blk
+                    for st in blk:
+                        if not isinstance(st, (ast.FunctionDef, ast.ClassDef, ast.AsyncFunctionDef)):
+                            yield from blocks(st)
+            for h in getattr(node, "handlers", []) or []:
+                yield from blocks(h)
+        for blk in blocks(fn):
+            for i, s in enumerate(blk):
+                if isinstance(s, ast.FunctionDef) and not s.decorator_list and stored.get(s.name, 0) == 1 \
+                        and not any(isinstance(x, (ast.Nonlocal, ast.Global, ast.Yield, ast.YieldFrom)) for x in ast.walk(s)):
+                    # the closure must not be handed out (stored, passed, returned): only called
+                    uses = [x for x in ast.walk(fn) if isinstance(x, ast.Name) and x.id == s.name and isinstance(x.ctx, ast.Load)]
+                    called = [x.func for x in ast.walk(fn) if isinstance(x, ast.Call) and isinstance(x.func, ast.Name) and x.func.id == s.name]
+                    # a def inside a loop / branch is bound each time that block runs: its calls are inlined when they all sit in the statements
+                    # that follow it in the same block (the closure called is the one just bound, its free variables are read at the call)
+                    after = {id(x) for st in blk[i + 1:] for x in ast.walk(st)}
+                    if uses and len(uses) == len(called) and (blk is fn.body or all(id(x) in after for x in uses)):
+                        self.local_defs[s.name] = s
 
     def lookup(self, call: ast.Call):
         cn = call_name(call)
@@ -1012,6 +1040,19 @@ def _inline_block(stmts, res: Resolver, depth: int, stack: Tuple[str, ...]):
     return out
 
 
+def _drop_dead_local_defs(f, res):
+    """a local closure every call of which was inlined is no longer read: its `def` statement is dropped (a block left empty keeps a `pass`)"""
+    for name, d in list(res.local_defs.items()):
+        if any(isinstance(x, ast.Name) and x.id == name and isinstance(x.ctx, ast.Load) for x in ast.walk(f)):
+            continue
+        for node in ast.walk(f):
+            for fld in ("body", "orelse", "finalbody"):
+                blk = getattr(node, fld, None)
+                if isinstance(blk, list) and any(isinstance(x, ast.FunctionDef) and x.name == name and x is not f for x in blk):
+                    new = [x for x in blk if not (isinstance(x, ast.FunctionDef) and x.name == name)]
+                    setattr(node, fld, new or [ast.Pass()])
+
+
 def inlined(fn, repo, ci=None, rel=None, depth=2, keep=frozenset()):
     """V2"""
     f = clone(fn)
@@ -1019,6 +1060,7 @@ def inlined(fn, repo, ci=None, rel=None, depth=2, keep=frozenset()):
     f.body = _norm_body(f.body)
     res.set_local_defs(f)
     f.body = _inline_block(f.body, res, depth, (fn.name,))
+    _drop_dead_local_defs(f, res)
     f.body = _merge_tail_returns(f.body)
     f.body = _norm_body(f.body)
     f.body = _sink_into_branches(f.body)
@@ -1065,16 +1107,33 @@ def _coalesce_helper_locals(f) -> bool:
     changed = False
     ys = sorted({n.id for n in ast.walk(f) if isinstance(n, ast.Name) and _HSUF.match(n.id)})
     for y in ys:
-        x = _HSUF.match(y).group(1)
+        base = _HSUF.match(y).group(1)
+        # the caller's name the helper's result is copied into (`result = helper_local`), if any, is tried first; then the helper's own name
+        copy_targets = [st.targets[0].id for st in ast.walk(f) if isinstance(st, ast.Assign) and len(st.targets) == 1 and isinstance(st.targets[0], ast.Name)
+                        and isinstance(st.value, ast.Name) and st.value.id == y and not _HSUF.match(st.targets[0].id)]
+        done = False
+        for x in list(dict.fromkeys(copy_targets + [base])):
+            if _coalesce_one(f, y, x, allow_plain=(x == base)):
+                changed = done = True
+                break
+        if done:
+            set_parents(f)
+    return changed
+
+
+def _coalesce_one(f, y, x, allow_plain) -> bool:
+    if True:
+        changed = False
         occ_x = [n for n in ast.walk(f) if (isinstance(n, ast.Name) and n.id == x) or (isinstance(n, ast.arg) and n.arg == x)]
         occ_y = [n for n in ast.walk(f) if isinstance(n, ast.Name) and n.id == y]
-        if any(_in_closure(n, f) for n in occ_y + [n for n in occ_x if isinstance(n, ast.Name)]):
-            continue
+        if not occ_y or any(_in_closure(n, f) for n in occ_y + [n for n in occ_x if isinstance(n, ast.Name)]):
+            return False
         if not occ_x:
+            if not allow_plain:
+                return False
             for n in occ_y:
                 n.id = x
-            changed = True
-            continue
+            return True
         # the block (statement list) holding all occurrences of y
         blk = None
         for node in ast.walk(f):
@@ -1087,7 +1146,7 @@ def _coalesce_helper_locals(f) -> bool:
                     if blk is None or len(inside) < blk[1]:
                         blk = (b, len(inside))
         if blk is None:
-            continue
+            return False
         b = blk[0]
         idx_of = lambda n: next(i for i, st in enumerate(b) if any(m is n for m in ast.walk(st)))
         iy = [idx_of(n) for n in occ_y]
@@ -1103,26 +1162,24 @@ def _coalesce_helper_locals(f) -> bool:
                 return branch(st.body) and branch(st.orelse) and (any(definitely(q) for q in st.body) or any(definitely(q) for q in st.orelse))
             return False
         if not stores_y or not any(definitely(st) for st in b):
-            continue               # y must be bound on every path before the copy (otherwise the copy raises where the renamed code would not)
+            return False               # y must be bound on every path before the copy (otherwise the copy raises where the renamed code would not)
         last_store = max(idx_of(n) for n in stores_y)
         xs_in = [(i, n) for i, st in enumerate(b) if i >= i0 for n in ast.walk(st) if isinstance(n, ast.Name) and n.id == x]
         copies = [i for i, st in enumerate(b) if isinstance(st, ast.Assign) and len(st.targets) == 1 and isinstance(st.targets[0], ast.Name)
                   and st.targets[0].id == x and isinstance(st.value, ast.Name) and st.value.id == y]
         if len(copies) != 1 or copies[0] <= last_store:
-            continue
+            return False
         c = copies[0]
         if any(i < c for i, n in xs_in):
-            continue
+            return False
         x_restored_later = any(isinstance(n.ctx, (ast.Store, ast.Del)) and i != c for i, n in xs_in)
         y_after_copy = any(i > c for i in iy)
         if x_restored_later and y_after_copy:
-            continue               # x is re-bound later while y is still read: they are not one variable
+            return False               # x is re-bound later while y is still read: they are not one variable
         for n in occ_y:
             n.id = x
         b.pop(c)
-        changed = True
-        set_parents(f)
-    return changed
+        return True
 
 
 # ----------------------------------------------------------------------------------------------------------------- forward substitution
@@ -1284,7 +1341,12 @@ def substituted(fn, only=None):
                         continue
                     if any(_in_closure(u, f) for u in uses):
                         continue           # a closure reads the variable when it is CALLED: substituting the defining expression there is not equivalent
-                    has_call = any(isinstance(n, ast.Call) for n in ast.walk(rhs))
+                    # isinstance(<local>, <class names>) depends on the binding of the local only (an object does not change its class): it is no more a
+                    # call than a comparison is, and may be read at several places and past effects as long as the local is not re-bound
+                    # ... and a pure accessor hoisted out of the comprehension(s) that read it (`names = d.get_parameter_names(); {.. if k in names}`) is
+                    # folded back into them; read anywhere else the temporary stays a temporary
+                    acc_ok = isinstance(rhs, ast.Call) and _is_pure_accessor(rhs) and all(_in_comprehension(u, f) for u in uses)
+                    has_call = not acc_ok and any(isinstance(n, ast.Call) and not _is_type_test(n) for n in ast.walk(rhs))
                     if has_call and len(uses) != 1:
                         continue
                     # uses must all lie in later statements of the same block (possibly nested inside them)
@@ -1346,6 +1408,30 @@ def substituted(fn, only=None):
             if changed:
                 break
     return set_parents(ast.fix_missing_locations(f))
+
+
+# zero-argument accessors that compute their result from the receiver without changing anything (every implementation in the repository builds a fresh
+# list of names): calling them once before a comprehension or once per element is the same
+_PURE_ACCESSORS = {"get_parameter_names", "get_conditioning_variables", "get_mutable_variables"}
+
+
+def _is_pure_accessor(c: ast.Call) -> bool:
+    return isinstance(c.func, ast.Attribute) and c.func.attr in _PURE_ACCESSORS and not c.args and not c.keywords and isinstance(c.func.value, ast.Name)
+
+
+def _in_comprehension(node, root) -> bool:
+    n = getattr(node, "_parent", None)
+    while n is not None and n is not root:
+        if isinstance(n, (ast.ListComp, ast.DictComp, ast.SetComp, ast.GeneratorExp)):
+            return True
+        n = getattr(n, "_parent", None)
+    return False
+
+
+def _is_type_test(c: ast.Call) -> bool:
+    if not (isinstance(c.func, ast.Name) and c.func.id == "isinstance" and len(c.args) == 2 and not c.keywords and isinstance(c.args[0], ast.Name)):
+        return False
+    return all(isinstance(x, (ast.Name, ast.Attribute, ast.Tuple, ast.Load)) for x in ast.walk(c.args[1]))
 
 
 def _element_ref(e, mutated) -> bool:
